@@ -17,7 +17,7 @@ ASSUMPTIONS = ['geod_exact direct solver (self-validated each shard)',
                'lever arm for "moves the far end by 1 mm" = spherical reduced length a|sin(s/a)|']
 N = {'quick': 1200, 'thorough': 20000}
 SHARDS = {'quick': 16, 'thorough': 32}
-REQUIRED_COUNTERS = ['closure_judged', 'reverse_judged', 'swap_judged', 'shift_judged', 'coincident']
+REQUIRED_COUNTERS = ['alias_sequences', 'closure_judged', 'reverse_judged', 'swap_judged', 'shift_judged', 'coincident']
 
 
 def plan(tier, seed):
@@ -37,6 +37,11 @@ def run_shard(spec, ctx):
             if i < 2:
                 ctx.sample(case)
             geowork.judge_inverse(ns, ctx, case)
+            if rnd.random() < 0.3:
+                c2 = dict(case)
+                c2['ell'] = geowork.alias_ell(rnd, case['ell'])
+                geowork.judge_inverse(ns, ctx, c2)
+                ctx.count('alias_sequences')
     finally:
         reach.stop()
     ctx.info['lines_reached'] = reach.summary()
